@@ -1,6 +1,7 @@
 package main
 
 import (
+	"os"
 	"fmt"
 	"go/ast"
 	"go/parser"
@@ -397,17 +398,17 @@ func (x *Exec) appendOp(s *SliceV, tv Val, rt types.Type) Val {
 			tInner := x.sc.def(sel(h, tArr), "tin")
 			src = func(k *Term) *Term { return sel(tInner, add(tOff, k)) }
 		}
-		if tLen.S == "1" {
+		if tLen.S == "1" && os.Getenv("GOVC_FAST1") != "" {
 			// common case: one element
 			v := x.sc.def(src(tZero), "ev")
-			inpl := store(sInner, add(s.Off, s.Len), v)
-			fresh := x.sc.fresh(arrSort(SInt, ls[i].sort), "newin")
-			x.sc.assume(forallIdx(func(j *Term) *Term {
-				return implies(and(le(tZero, j), lt(j, s.Len)), eq(sel(fresh, j), sel(sInner, add(s.Off, j))))
-			}, func(j *Term) *Term { return sel(fresh, j) }))
-			x.sc.assume(eq(sel(fresh, s.Len), v))
+			// one new inner array, described per case by guarded facts (no ite over arrays)
+			ni := x.sc.fresh(arrSort(SInt, ls[i].sort), "newin")
+			x.sc.assume(implies(inPlace, eq(ni, store(sInner, add(s.Off, s.Len), v))))
+			x.sc.assume(implies(not(inPlace), and(forallIdx(func(j *Term) *Term {
+				return implies(and(le(tZero, j), lt(j, s.Len)), eq(sel(ni, j), sel(sInner, add(s.Off, j))))
+			}, func(j *Term) *Term { return sel(ni, j) }), eq(sel(ni, s.Len), v))))
 			x.noteWrite(l.key, nil)
-			x.st.heap[l.key] = x.sc.def(ite(inPlace, store(h, s.Arr, inpl), store(h, newArr, fresh)), "H")
+			x.st.heap[l.key] = x.sc.def(store(h, resArr, ni), "H")
 			continue
 		}
 		r := x.sc.fresh(arrSort(SInt, ls[i].sort), "appin")
